@@ -103,21 +103,41 @@ func (c *Ctx) expandFact(pk *pkgT) func(cf *cfgx.Func, fa cfgx.Fact) []cfgx.Fact
 		// what the helper returns next to its verdict is what the caller's variables hold:
 		// `name, macro, je := h(x)` - a local of h that every success return hands out as
 		// result i is the caller's i-th left-hand side
+		// first in terms of what the helper's locals were computed from (a returned `name`
+		// that was d.NamedParameter("Name") is a fact about that call), then ...
+		var out []cfgx.Fact
+		for _, hf := range facts {
+			if e := substToCaller(hf.Expr, sub, hpk.TypesInfo, info, cfh.DefOf); e != nil {
+				out = append(out, cfgx.Fact{Expr: e, Truth: hf.Truth})
+			}
+		}
+		byResult := false
 		if lhs := c.callLHS(info, cf, fa, call); lhs != nil {
 			for i, o := range c.resultObjs(hpk, fd, kind) {
 				if o != nil && i < len(lhs) {
 					if id, ok := lhs[i].(*ast.Ident); ok && id.Name != "_" {
 						if _, taken := sub[o]; !taken {
 							sub[o] = id
+							byResult = true
 						}
 					}
 				}
 			}
 		}
-		var out []cfgx.Fact
-		for _, hf := range facts {
-			if e := substToCaller(hf.Expr, sub, hpk.TypesInfo, info, cfh.DefOf); e != nil {
-				out = append(out, cfgx.Fact{Expr: e, Truth: hf.Truth})
+		// ... in terms of the caller's own variables that received the results
+		if byResult {
+			for _, hf := range facts {
+				if e := substToCaller(hf.Expr, sub, hpk.TypesInfo, info, cfh.DefOf); e != nil {
+					dup := false
+					for _, o := range out {
+						if o.Truth == hf.Truth && types.ExprString(o.Expr) == types.ExprString(e) {
+							dup = true
+						}
+					}
+					if !dup {
+						out = append(out, cfgx.Fact{Expr: e, Truth: hf.Truth})
+					}
+				}
 			}
 		}
 		return out
@@ -590,4 +610,64 @@ func (c *Ctx) flagImplies(info *types.Info, cf *cfgx.Func, fa cfgx.Fact) []cfgx.
 		out = append(out, a)
 	}
 	return out
+}
+
+// funcValueOf resolves an expression of function type to the code it denotes: a literal;
+// a local that was assigned a literal once; a declared function or method (also as a method
+// value `x.m`); or a call of a repository function all of whose returns hand out one and
+// the same literal (`tagDescriptionSetter(&description)`). It returns the body, the
+// signature syntax and the package whose types.Info covers them; ok=false otherwise.
+func (c *Ctx) funcValueOf(pk *pkgT, cf *cfgx.Func, e ast.Expr) (body *ast.BlockStmt, ftype *ast.FuncType, in *pkgT, ok bool) {
+	info := pk.TypesInfo
+	e = ast.Unparen(e)
+	if cf != nil {
+		e = ast.Unparen(cf.Resolve(e))
+	}
+	switch x := e.(type) {
+	case *ast.FuncLit:
+		return x.Body, x.Type, pk, true
+	case *ast.Ident, *ast.SelectorExpr:
+		var g *types.Func
+		if id, isId := x.(*ast.Ident); isId {
+			g, _ = info.ObjectOf(id).(*types.Func)
+		} else {
+			g, _ = info.ObjectOf(x.(*ast.SelectorExpr).Sel).(*types.Func)
+		}
+		if g == nil {
+			return nil, nil, nil, false
+		}
+		if gd := c.P.Decl(g); gd != nil && gd.Body != nil {
+			return gd.Body, gd.Type, c.P.PkgOfDecl(gd), true
+		}
+	case *ast.CallExpr:
+		g := Callee(info, x)
+		if g == nil {
+			return nil, nil, nil, false
+		}
+		gd := c.P.Decl(g)
+		if gd == nil || gd.Body == nil {
+			return nil, nil, nil, false
+		}
+		var lit *ast.FuncLit
+		many := false
+		inspectNoLit(gd.Body, func(n ast.Node) bool {
+			ret, isRet := n.(*ast.ReturnStmt)
+			if !isRet || len(ret.Results) != 1 {
+				return true
+			}
+			if l, isLit := ast.Unparen(ret.Results[0]).(*ast.FuncLit); isLit {
+				if lit != nil {
+					many = true
+				}
+				lit = l
+			} else {
+				many = true
+			}
+			return true
+		})
+		if lit != nil && !many {
+			return lit.Body, lit.Type, c.P.PkgOfDecl(gd), true
+		}
+	}
+	return nil, nil, nil, false
 }
